@@ -478,7 +478,7 @@ theorem validateBody_sound {cfg : ComCfg} {env : StakeEnv} (hcum : cfg.cumulativ
   have hview : cfg.view p = p := by simp [ComCfg.view, hcum]
   cases b with
   | other => simp [validateBody] at h; subst h; exact ⟨rfl, rfl, rfl, hp⟩
-  | createVal r =>
+  | createVal r cv ca =>
     simp only [validateBody] at h
     split at h
     · cases h
@@ -523,14 +523,39 @@ theorem validateBody_sound {cfg : ComCfg} {env : StakeEnv} (hcum : cfg.cumulativ
       have hamt : 0 ≤ (if src = dst then (0 : Int) else amt) := by split <;> omega
       refine ⟨trivial, projectedPower_sound hcap (by omega) (by omega) hok, rfl, valid_add hp dst hamt (le_refl 0)⟩
 
+/-- the validator a (re)delegation goes to exists in the stake the transaction starts from -/
+def targetsKnown (env : StakeEnv) : Body → Bool
+  | .delegate v _ => (env.tokens v).isSome
+  | .redelegate _ dst _ => (env.tokens dst).isSome
+  | _ => true
+
+/-- the decorator refuses a (re)delegation to a validator that is not in the store — also one that an
+    earlier message of the same transaction is about to create -/
+theorem validateBody_known {cfg : ComCfg} {env : StakeEnv} {p q : Pending} {b : Body}
+    (h : validateBody cfg env p b = .ok (some q)) : targetsKnown env b = true := by
+  cases b with
+  | delegate v amt =>
+    simp only [validateBody] at h
+    simp only [targetsKnown]
+    cases ht : env.tokens v with
+    | none => simp [ht] at h
+    | some tok => rfl
+  | redelegate src dst amt =>
+    simp only [validateBody] at h
+    simp only [targetsKnown]
+    cases ht : env.tokens dst with
+    | none => simp [ht] at h
+    | some tok => rfl
+  | _ => rfl
+
 theorem validateAll_sound {cfg : ComCfg} {env : StakeEnv} (hcum : cfg.cumulative = true) (hcap : (100 : Int) ∣ cfg.maxVotingPower)
     (he : envValid env = true) : ∀ (ls : List Leaf) (p q : Pending), p.valid →
     (∀ l ∈ ls, bodyAmountsValid l.body = true) → validateAll cfg env p ls = .ok (some q) →
     (∀ l ∈ ls, commissionOK cfg.minCommission l.body = true) ∧ seqCapOK cfg.maxVotingPower env p ls = true ∧
-      q = finalPending env p ls
+      q = finalPending env p ls ∧ (∀ l ∈ ls, targetsKnown env l.body = true)
   | [], p, q, _, _, h => by
     simp [validateAll] at h; subst h
-    exact ⟨by simp, rfl, rfl⟩
+    exact ⟨by simp, rfl, rfl, by simp⟩
   | l :: ls, p, q, hp, hb, h => by
     unfold validateAll at h
     cases hv : validateBody cfg env p l.body with
@@ -541,14 +566,19 @@ theorem validateAll_sound {cfg : ComCfg} {env : StakeEnv} (hcum : cfg.cumulative
       | some p' =>
         simp only [hv] at h
         obtain ⟨hc, hk, hq, hval⟩ := validateBody_sound hcum hcap he hp (hb l (by simp)) hv
-        obtain ⟨ih1, ih2, ih3⟩ := validateAll_sound hcum hcap he ls p' q hval (fun l' hl' => hb l' (by simp [hl'])) h
-        refine ⟨?_, ?_, ?_⟩
+        have hkn := validateBody_known hv
+        obtain ⟨ih1, ih2, ih3, ih4⟩ := validateAll_sound hcum hcap he ls p' q hval (fun l' hl' => hb l' (by simp [hl'])) h
+        refine ⟨?_, ?_, ?_, ?_⟩
         · intro l' hl'
           rcases List.mem_cons.mp hl' with rfl | hl''
           · exact hc
           · exact ih1 l' hl''
         · simp only [seqCapOK, hk, Bool.true_and, ← hq]; exact ih2
         · simp only [finalPending, ← hq]; exact ih3
+        · intro l' hl'
+          rcases List.mem_cons.mp hl' with rfl | hl''
+          · exact hkn
+          · exact ih4 l' hl''
 
 /-! ### the end of the transaction: nobody who received stake holds the cap or more -/
 
@@ -620,7 +650,7 @@ theorem endOK_step {cap : Int} (hc : 0 ≤ cap) {env : StakeEnv} {p : Pending} (
       simp only [ht] at hk ⊢
       exact key dst _ 0 tok ht (le_refl 0) (by simpa using hk)
   | other => exact hend
-  | createVal r => exact hend
+  | createVal r cv ca => exact hend
   | editVal r => exact hend
 
 theorem endOK_final {cap : Int} (hc : 0 ≤ cap) {env : StakeEnv} : ∀ (ls : List Leaf) (p : Pending), p.valid →
@@ -633,6 +663,140 @@ theorem endOK_final {cap : Int} (hc : 0 ≤ cap) {env : StakeEnv} : ∀ (ls : Li
     have hbl := hb l (by simp)
     exact endOK_final hc ls _ (stepPending_valid hp hbl) (fun l' hl' => hb l' (by simp [hl']))
       (endOK_step hc hp hbl hend hs.1) hs.2
+
+/-! ### validators created by the transaction itself: the stake only grows -/
+
+/-- `e` extends `e0`: at least the total, and every validator of `e0` with the same tokens -/
+def Ext (e0 e : StakeEnv) : Prop := e0.total ≤ e.total ∧ ∀ v tok, e0.tokens v = some tok → e.tokens v = some tok
+
+theorem ext_refl (e : StakeEnv) : Ext e e := ⟨le_refl _, fun _ _ h => h⟩
+
+theorem tokens_cons (t : Int) (v : String) (a : Int) (vals : List (String × Int)) (w : String) :
+    StakeEnv.tokens ⟨t, (v, a) :: vals⟩ w = if v = w then some a else StakeEnv.tokens ⟨t, vals⟩ w := by
+  unfold StakeEnv.tokens
+  simp only [List.find?]
+  by_cases h : v = w
+  · simp [h]
+  · simp [h]
+
+theorem ext_create {e0 e : StakeEnv} (hx : Ext e0 e) {b : Body} (hb : bodyAmountsValid b = true) :
+    Ext e0 (createEnv e b) := by
+  cases b with
+  | createVal r v value =>
+    simp only [bodyAmountsValid, decide_eq_true_eq] at hb
+    simp only [createEnv]
+    cases ht : e.tokens v with
+    | some tok => exact hx
+    | none =>
+      refine ⟨by have := hx.1; simp only; omega, ?_⟩
+      intro w tok hw
+      have hew := hx.2 w tok hw
+      obtain ⟨t, vals⟩ := e
+      rw [tokens_cons]
+      by_cases hvw : v = w
+      · subst hvw; rw [ht] at hew; cases hew
+      · rw [if_neg hvw]; exact hew
+  | _ => exact hx
+
+theorem capOK_ext {cap : Int} (hc : 0 ≤ cap) {e0 e : StakeEnv} (hx : Ext e0 e) {p : Pending} {b : Body}
+    (hk : targetsKnown e0 b = true) (h : capOK cap e0 p b = true) : capOK cap e p b = true := by
+  cases b with
+  | delegate v amt =>
+    simp only [targetsKnown] at hk
+    simp only [capOK] at h ⊢
+    cases ht : e0.tokens v with
+    | none => simp [ht] at hk
+    | some tok =>
+      rw [ht] at h; rw [hx.2 v tok ht]
+      exact shareBelow_mono hc (by have := hx.1; omega) h
+  | redelegate src dst amt =>
+    simp only [targetsKnown] at hk
+    simp only [capOK] at h ⊢
+    cases ht : e0.tokens dst with
+    | none => simp [ht] at hk
+    | some tok =>
+      rw [ht] at h; rw [hx.2 dst tok ht]
+      exact shareBelow_mono hc (by have := hx.1; omega) h
+  | _ => rfl
+
+theorem stepPending_ext {e0 e : StakeEnv} (hx : Ext e0 e) (p : Pending) {b : Body}
+    (hk : targetsKnown e0 b = true) : stepPending e p b = stepPending e0 p b := by
+  cases b with
+  | delegate v amt =>
+    simp only [targetsKnown] at hk
+    simp only [stepPending]
+    cases ht : e0.tokens v with
+    | none => simp [ht] at hk
+    | some tok => rw [hx.2 v tok ht]
+  | redelegate src dst amt =>
+    simp only [targetsKnown] at hk
+    simp only [stepPending]
+    cases ht : e0.tokens dst with
+    | none => simp [ht] at hk
+    | some tok => rw [hx.2 dst tok ht]
+  | _ => rfl
+
+/-- every validator the pending stake mentions exists in `env` -/
+def keysKnown (env : StakeEnv) (p : Pending) : Prop := ∀ x ∈ p.byVal, (env.tokens x.1).isSome = true
+
+theorem keysKnown_step {env : StakeEnv} {p : Pending} (hk : keysKnown env p) (b : Body) :
+    keysKnown env (stepPending env p b) := by
+  cases b with
+  | delegate v amt =>
+    simp only [stepPending]
+    cases ht : env.tokens v with
+    | none => exact hk
+    | some tok =>
+      intro x hx
+      simp only [Pending.add, List.mem_cons] at hx
+      rcases hx with rfl | hx
+      · simp [ht]
+      · exact hk x hx
+  | redelegate src dst amt =>
+    simp only [stepPending]
+    cases ht : env.tokens dst with
+    | none => exact hk
+    | some tok =>
+      intro x hx
+      simp only [Pending.add, List.mem_cons] at hx
+      rcases hx with rfl | hx
+      · simp [ht]
+      · exact hk x hx
+  | _ => exact hk
+
+theorem keysKnown_final {env : StakeEnv} : ∀ (ls : List Leaf) (p : Pending), keysKnown env p →
+    keysKnown env (finalPending env p ls)
+  | [], _, h => h
+  | l :: ls, p, h => by simp only [finalPending]; exact keysKnown_final ls _ (keysKnown_step h l.body)
+
+theorem endOK_ext {cap : Int} (hc : 0 ≤ cap) {e0 e : StakeEnv} (hx : Ext e0 e) {p : Pending}
+    (hk : keysKnown e0 p) (h : endOK cap e0 p = true) : endOK cap e p = true := by
+  unfold endOK at h ⊢
+  rw [List.all_eq_true] at h ⊢
+  intro x hxm
+  have h1 := h x hxm
+  have h2 := hk x hxm
+  cases ht : e0.tokens x.1 with
+  | none => simp [ht] at h2
+  | some tok =>
+    rw [ht] at h1; rw [hx.2 x.1 tok ht]
+    exact shareBelow_mono hc (by have := hx.1; omega) h1
+
+/-- what holds over the fixed base stake holds over the stake that also gains the created validators -/
+theorem lift_seq {cap : Int} (hc : 0 ≤ cap) {e0 : StakeEnv} : ∀ (ls : List Leaf) (e : StakeEnv) (p : Pending), Ext e0 e →
+    (∀ l ∈ ls, targetsKnown e0 l.body = true) → (∀ l ∈ ls, bodyAmountsValid l.body = true) →
+    seqCapOK cap e0 p ls = true →
+    seqCapOKx cap e p ls = true ∧ (finalX e p ls).2 = finalPending e0 p ls ∧ Ext e0 (finalX e p ls).1
+  | [], e, p, hx, _, _, _ => ⟨rfl, rfl, hx⟩
+  | l :: ls, e, p, hx, hk, hb, hs => by
+    simp only [seqCapOK, Bool.and_eq_true] at hs
+    have hkl := hk l (by simp)
+    have hbl := hb l (by simp)
+    have hstep := stepPending_ext hx p hkl
+    obtain ⟨i1, i2, i3⟩ := lift_seq hc ls (createEnv e l.body) (stepPending e0 p l.body) (ext_create hx hbl)
+      (fun l' hl' => hk l' (by simp [hl'])) (fun l' hl' => hb l' (by simp [hl'])) hs.2
+    simp only [seqCapOKx, finalX, finalPending, hstep, Bool.and_eq_true]
+    exact ⟨⟨capOK_ext hc hx hkl hs.1, i1⟩, i2, i3⟩
 
 /-- clauses 2 and 3, for any configuration that unwraps MsgExec -/
 theorem staking_generic {cfg : ComCfg} (hu : cfg.unwrap = true) (hcum : cfg.cumulative = true) (hcap : (100 : Int) ∣ cfg.maxVotingPower)
@@ -649,10 +813,15 @@ theorem staking_generic {cfg : ComCfg} (hu : cfg.unwrap = true) (hcum : cfg.cumu
     cases o with
     | none => simp [hr, Except.map] at h
     | some q =>
-      obtain ⟨h1, h2, h3⟩ := validateAll_sound hcum hcap he _ _ q valid_empty hb hr
+      obtain ⟨h1, h2, h3, hkn⟩ := validateAll_sound hcum hcap he _ _ q valid_empty hb hr
       have hend0 : endOK cfg.maxVotingPower env Pending.empty = true := by simp [endOK, Pending.empty]
       have h4 := endOK_final hc0 _ _ valid_empty hb hend0 h2
+      have hk0 : keysKnown env Pending.empty := by intro x hx; simp [Pending.empty] at hx
+      have hkf := keysKnown_final (leavesList ms) _ hk0
+      obtain ⟨l1, l2, l3⟩ := lift_seq hc0 (leavesList ms) env Pending.empty (ext_refl env) hkn hb h2
       simp only [stakingOK, Bool.not_true, Bool.false_or, Bool.and_eq_true]
-      exact ⟨⟨List.all_eq_true.mpr h1, h2⟩, h4⟩
+      refine ⟨⟨List.all_eq_true.mpr h1, l1⟩, ?_⟩
+      rw [l2]
+      exact endOK_ext hc0 l3 hkf h4
 
 end Sif.Ante
